@@ -10,7 +10,10 @@ for d in sorted(glob.glob("/verif/seeded/*/")):
     for k, v in (c.get("checks") or {}).items():
         if v.get("violations"):
             first = v.get("first", "")
-            clause = "no-failing-input-found" if "no-failing-input-found" in first else "failing input"
+            wi = v.get("with_input")
+            if wi is None:
+                wi = 0 if "no-failing-input-found" in first else v["violations"]
+            clause = "failing input" if wi > 0 else "no-failing-input-found"
             det.append("%s (%d, %s)" % (k, v["violations"], clause))
         else:
             det.append("%s: MISSED" % k)
